@@ -14,6 +14,8 @@ func dispatch(t *testing.T, sc scenario) result {
 		return runNew(sc)
 	case 5:
 		return runJoin(t, sc)
+	case 6:
+		return runLimit(t, sc)
 	default:
 		return result{verdict: "unknown-family"}
 	}
